@@ -21,6 +21,9 @@ def classify_sqlite_error(msg, dialect):
         return "arity"
     if "too many rows" in m:
         return "engine_unsupported"
+    if "on clause references tables to its right" in m and dialect != "sqlite":
+        # a restriction of SQLite's RIGHT/FULL JOIN implementation, not of SQL: only sql.sqlite output must respect it
+        return "engine_unsupported"
     return "other"
 
 
@@ -126,7 +129,8 @@ def run_case(w, prog, db, dbname, dialect, src=None, want_rq=True, user_names=No
             o.status = "engine_unsupported"
             return o
         o.status = "judged"
-        o.symptoms.append(("C07", "sql_error:" + cls + ":" + re.sub(r"[\w.]*_expr_\d+|table_\d+\.\w+|\b[a-z]\d+\.\w+|\b\w+$", "X", ex["sqlite_error"].split(" in ")[0])[:60],
+        pat = r"[\w.]*_expr_\d+|table_\d+\.\w+|\b[a-z]\d+\.\w+" + (r"|\b\w+$" if cls == "scope" else "")     # the trailing word is a name only in scope errors
+        o.symptoms.append(("C07", "sql_error:" + cls + ":" + re.sub(pat, "X", ex["sqlite_error"].split(" in ")[0])[:60],
                            ex["sqlite_error"][:300]))
         return o
     o.cols, o.rows = ex["cols"], [tuple(x) for x in ex["rows"]]
@@ -192,9 +196,10 @@ def run_case(w, prog, db, dbname, dialect, src=None, want_rq=True, user_names=No
             lost = [a for a in act if GENERATED.match(a) and a not in user]
             o.symptoms.append(("C05", "name_lost_to_generated" if lost else "name_missing",
                                "frame %r result %r" % (exp, act)))
-            # positional comparison of values is still meaningful when only names differ,
-            # but not when the column order itself is open
-            if m.colorder_unspec:
+            # positional comparison of values is still meaningful when only names differ, but not when the
+            # column order itself is open, nor when a wildcard may have brought in a helper column in place
+            # of the missing one (same count, different columns)
+            if m.colorder_unspec or has_wild:
                 o.status = "unalignable"
                 aligned = False
         elif not positional_ok:
